@@ -59,6 +59,11 @@ pub enum Op {
     BlockOn(u8, i32),
     /// a burst of n plain tasks sent back to back to one arbiter
     Burst(usize, u8),
+    /// another System is created and dropped on a thread of its own while this one lives
+    OtherSystem,
+    /// (system thread) drive the system with `block_on` until every arbiter that was registered
+    /// when the controller took an Exit has ended its loop
+    BlockOnUntilStopped,
     Nop,
 }
 
@@ -154,6 +159,10 @@ struct State {
     sys_arb_stopped: bool,
     run_returned: bool,
     blocked_until_run: bool,
+    /// the system thread sits in `block_on`, waiting for the stop to take effect on the arbiters
+    waiting_in_block_on: bool,
+    stop_effect_under_block_on: bool,
+    other_systems: u32,
     /// reference model of the system's command channel: what has been sent and not yet taken
     sysq: std::collections::VecDeque<SysCmd>,
     /// arbiter ids the reference controller has registered
@@ -599,7 +608,7 @@ impl Future for TaskFut {
                                 // a thread blocked in a join on this arbiter would wait for ever,
                                 // and with it possibly the stop this task is waiting for
                                 let someone_joins = st.slots.iter().any(|s| matches!(s, SlotState::BlockedJoin(_)));
-                                if st.run_returned || st.aborted || someone_joins {
+                                if st.run_returned || st.aborted || someone_joins || st.waiting_in_block_on {
                                     break;
                                 }
                             }
@@ -791,6 +800,60 @@ fn exec_op(sim: &Arc<Sim>, op: &Op, runner: Option<&actix_rt::SystemRunner>) {
                 for _ in 0..*count {
                     do_spawn(sim, a, TaskKind::Fut, true);
                 }
+            }
+        }
+        Op::OtherSystem => {
+            // joined at once: the helper thread is not under the baton, and nothing it does
+            // depends on timing (hook points are inert on unregistered threads)
+            let h = thread::Builder::new().name("rtsim-other-system".into()).spawn(|| {
+                let other = System::new();
+                let v = other.block_on(async { 7 });
+                drop(other);
+                v
+            });
+            if let Ok(h) = h {
+                let _ = h.join();
+            }
+            let mut st = sim.st.lock().unwrap();
+            st.other_systems += 1;
+            evpush(&mut st.events, "another System lived and died on its own thread".to_string());
+        }
+        Op::BlockOnUntilStopped => {
+            if let Some(r) = runner {
+                let s2 = sim.clone();
+                let mut idle_polls = 0u32;
+                sim.st.lock().unwrap().waiting_in_block_on = true;
+                let outcome = r.block_on(std::future::poll_fn(move |cx| {
+                    let done = {
+                        let st = s2.st.lock().unwrap();
+                        if st.aborted {
+                            Some("aborted")
+                        } else if st.exits_processed >= 1 {
+                            // every arbiter the controller told to stop has left its loop
+                            let all = st.must_end.iter().filter(|id| **id != usize::MAX).all(|id| st.arb_slot.get(id).map_or(true, |slot| st.loop_ended.contains(slot)));
+                            if all { Some("arbiters ended") } else { None }
+                        } else {
+                            None
+                        }
+                    };
+                    if let Some(d) = done {
+                        return Poll::Ready(d);
+                    }
+                    if s2.st.lock().unwrap().exits_processed == 0 {
+                        idle_polls += 1;
+                        if idle_polls > 40 {
+                            return Poll::Ready("no stop yet");
+                        }
+                    }
+                    cx.waker().wake_by_ref();
+                    Poll::Pending
+                }));
+                let mut st = sim.st.lock().unwrap();
+                st.waiting_in_block_on = false;
+                if outcome == "arbiters ended" && st.must_end.iter().any(|id| *id != usize::MAX) {
+                    st.stop_effect_under_block_on = true;
+                }
+                evpush(&mut st.events, format!("block_on until stopped -> {outcome}"));
             }
         }
         Op::BlockOn(k, val) => {
@@ -1030,6 +1093,15 @@ fn sim_thread(sim: Arc<Sim>, cfg: Config) {
 
 fn final_oracles(st: &mut State, prop: &str) -> Option<Violation> {
     if let Some(v) = st.violation.take() {
+        if v.class == "hang" && st.waiting_in_block_on && st.exits_processed >= 1 {
+            return Some(Violation::new(
+                "arbiter-not-stopped",
+                format!(
+                    "the controller took {} Exit command(s) off its channel while the system was driven by block_on, but the arbiters registered at that moment had not ended their loops after {HARD_YIELD_CAP} scheduling decisions",
+                    st.exits_processed
+                ),
+            ));
+        }
         if v.class == "hang" && st.exits_processed >= 1 && !st.run_returned {
             return Some(Violation::new(
                 "run-never-returned",
@@ -1152,10 +1224,23 @@ fn gen_ops(rng: &mut Rng, n: usize, main: bool, c10: bool) -> Vec<Op> {
                     Op::Nop
                 }
             }
-            11 if main => Op::BlockOn(rng.range(0, 2) as u8, rng.range(0, 5) as i32),
+            11 if main => {
+                if rng.chance(1, 4) {
+                    Op::BlockOnUntilStopped
+                } else {
+                    Op::BlockOn(rng.range(0, 2) as u8, rng.range(0, 5) as i32)
+                }
+            }
+            13 => {
+                if rng.chance(1, 3) {
+                    Op::OtherSystem
+                } else {
+                    Op::Nop
+                }
+            }
             12 => {
                 if rng.chance(1, 3) {
-                    Op::Burst(rng.usize_below(3), *rng.pick(&[5u8, 17, 40]))
+                    Op::Burst(rng.usize_below(3), *rng.pick(&[5u8, 17, 40, 40, 135]))
                 } else {
                     Op::Nop
                 }
@@ -1233,6 +1318,9 @@ impl Engine for RtSim {
                 sys_arb_stopped: false,
                 run_returned: false,
                 blocked_until_run: false,
+                waiting_in_block_on: false,
+                stop_effect_under_block_on: false,
+                other_systems: 0,
                 sysq: Default::default(),
                 registered: Vec::new(),
                 must_end: Vec::new(),
@@ -1299,6 +1387,12 @@ impl Engine for RtSim {
         if st.blocked_until_run && st.run_returned {
             ctx.bump("probe.arbiter_blocked_across_stop");
         }
+        if st.other_systems > 0 && st.arbs.len() >= 2 {
+            ctx.bump("probe.other_system_between_arbiters");
+        }
+        if st.stop_effect_under_block_on {
+            ctx.bump("probe.stop_took_effect_under_block_on");
+        }
         {
             let stop_seq = st.first_stop.map(|s| s.0).unwrap_or(u64::MAX);
             if st.arbs.iter().any(|a| a.new_returned_seq > stop_seq && st.must_end.contains(&a.arb_id)) {
@@ -1339,7 +1433,7 @@ impl Engine for RtSim {
     fn describe(prop: &str) -> Describe {
         Describe {
             rule: format!(
-                "seeded programs (<=11 ops on the system thread, 1..2 foreign threads with <=7 ops; ops: new arbiter (<=3), spawn fn/future/pending-k/panicking/busy/self-stopping/system-stopping/cross-spawning task through the owner or a cloned handle or Arbiter::current(), stop / join / drop an arbiter, stop_with_code(0|7|-1), block_on) executed on real OS threads under a baton scheduler whose every choice (who runs next, at runtime ticks, at arbiter life-cycle points, at every runner/controller loop iteration) comes from the seed; {}; non-trivial = >=1 arbiter and >=1 task started; distinct = distinct event-trace hash",
+                "seeded programs (<=11 ops on the system thread, 1..2 foreign threads with <=7 ops; ops: new arbiter (<=3), spawn fn/future/pending-k/panicking/busy/self-stopping/system-stopping/cross-spawning task through the owner or a cloned handle or Arbiter::current(), stop / join / drop an arbiter, stop_with_code(0|7|-1), block_on (also: until the stop has taken effect on the arbiters), bursts of 5-135 commands, a task that blocks its arbiter until run() has returned, another System created and dropped on a thread of its own, a System that lived earlier on the system thread) executed on real OS threads under a baton scheduler whose every choice (who runs next, at runtime ticks, at arbiter life-cycle points, at every runner/controller loop iteration) comes from the seed; {}; non-trivial = >=1 arbiter and >=1 task started; distinct = distinct event-trace hash",
                 if prop == "C09" { "oracle: run_with_code returns the first stop's code, every arbiter created before the first stop ends and joins" } else { "oracle: per-arbiter FIFO start order, at most once, own thread, System/Arbiter::current identity (also on a thread that hosted another System before; Arbiter::current() inside a running task is a live handle), nothing sent after stop() starts, spawn/stop false once the event loop has returned and after join, join not early, block_on output" }
             ),
             real: vec!["actix_rt::{System, SystemRunner, SystemController, Arbiter, ArbiterHandle, ArbiterRunner, Runtime}", "tokio current_thread runtimes + LocalSet on real OS threads", "thread-locals HANDLE / CURRENT"],
@@ -1349,7 +1443,7 @@ impl Engine for RtSim {
     }
     fn required_probes(prop: &str, _tier: Tier) -> Vec<&'static str> {
         if prop == "C09" {
-            vec!["probe.second_stop", "probe.arbiter_struct_dropped", "probe.arbiter_stopped_early", "fault.busy_arbiter", "probe.arbiter_blocked_across_stop", "probe.second_exit_processed"]
+            vec!["probe.second_stop", "probe.arbiter_struct_dropped", "probe.arbiter_stopped_early", "fault.busy_arbiter", "probe.arbiter_blocked_across_stop", "probe.second_exit_processed", "probe.other_system_between_arbiters", "probe.stop_took_effect_under_block_on"]
         } else {
             vec!["probe.task_sent_after_stop", "probe.marker_via_current", "fault.task_panic", "probe.prior_system_on_thread", "probe.spawn_refused_before_join"]
         }
